@@ -643,6 +643,33 @@ class Ghost:
         materialised as witness / counterexample on this path, outermost first"""
         return ListV([(k, v) for _, k, v in self.witnesses])
 
+    def vc_attr_is_read(self, args, kwargs, node):
+        """vc.attr_is_read(name): does the code under verification read an attribute of that
+        name anywhere (x.name in a load position)?  An attribute that is only ever written
+        (a statistics counter, a debugging aid) cannot influence what the code does."""
+        import ast as _ast
+
+        name = args[0]
+        w = self.I.world
+        cache = getattr(w, "_attr_reads", None)
+        if cache is None:
+            cache = set()
+            for mname, tree in w.asts.items():
+                if not mname.startswith("someip"):
+                    continue
+                for n in _ast.walk(tree):
+                    if isinstance(n, _ast.Attribute) and isinstance(n.ctx, _ast.Load):
+                        cache.add(n.attr)
+                    elif isinstance(n, _ast.Call) and isinstance(n.func, _ast.Name) and n.func.id in ("getattr", "hasattr"):
+                        if len(n.args) >= 2 and isinstance(n.args[1], _ast.Constant) and isinstance(n.args[1].value, str):
+                            cache.add(n.args[1].value)
+                        else:
+                            cache.add("*")
+                    elif isinstance(n, _ast.Call) and isinstance(n.func, _ast.Name) and n.func.id == "vars":
+                        cache.add("*")
+            w._attr_reads = cache
+        return name in cache or "*" in cache
+
     def vc_fields(self, args, kwargs, node):
         """vc.fields(obj): attribute name -> value of an instance, as a dict (frames: 'nothing
         else of the object changed')"""
